@@ -52,13 +52,16 @@ type Task struct {
 	// (buffered channel, condition variable) or only approximately
 	// (unbuffered channel, select: a rendezvous between two polling parties
 	// never happens)
-	exact   bool
-	waitOn  unsafe.Pointer
-	prio    int
-	fn      func()
-	lastRun int  // step at which the task was last chosen to run
-	kill    bool // the simulation is over: leave at the next wake-up (runtime.Goexit)
-	exited  uint32
+	exact bool
+	// the channel and direction (1 send, 2 receive, 0 unknown: select) of a polled wait
+	waitChan unsafe.Pointer
+	waitDir  int
+	waitOn   unsafe.Pointer
+	prio     int
+	fn       func()
+	lastRun  int  // step at which the task was last chosen to run
+	kill     bool // the simulation is over: leave at the next wake-up (runtime.Goexit)
+	exited   uint32
 }
 
 // Event is one entry of the (bounded) event log of a concurrency run.
@@ -459,6 +462,14 @@ func (s *Sched) resume(next int) {
 // is a deadlock.
 //
 //go:norace
+func (s *Sched) chanWaitOn(exact bool, ch unsafe.Pointer, dir int) {
+	t := s.tasks[s.cur]
+	t.waitChan, t.waitDir = ch, dir
+	s.chanWait(exact)
+	t.waitChan, t.waitDir = nil, 0
+}
+
+//go:norace
 func (s *Sched) chanWait(exact bool) {
 	t := s.tasks[s.cur]
 	t.exact = exact
@@ -559,8 +570,18 @@ func (s *Sched) deadlock() {
 	s.Deadlock = true
 	for i := 0; i < s.n; i++ {
 		s.DeadlockWait[i] = s.tasks[i].waitOn
-		if s.tasks[i].state == 4 && !s.tasks[i].exact {
-			s.DeadlockUncertain = true
+		if t := s.tasks[i]; t.state == 4 && !t.exact {
+			// a missed rendezvous is only possible if somebody waits on the
+			// other side of the same channel
+			uncertain := t.waitDir == 0
+			for j := 0; j < s.n && !uncertain; j++ {
+				if o := s.tasks[j]; j != i && o.state == 4 && (o.waitDir == 0 || (o.waitChan == t.waitChan && o.waitDir != t.waitDir)) {
+					uncertain = true
+				}
+			}
+			if uncertain {
+				s.DeadlockUncertain = true
+			}
 		}
 	}
 	s.cur = -1
